@@ -160,7 +160,8 @@ class Ctx:
         budget = timeout or Z3_TIMEOUT_MS
         order = (({}, min(budget, 6000)), ({'arith.solver': 2}, budget))
         if _nonlinear(list(hyps) + lem + [neg]):
-            order = (({'arith.solver': 2}, budget), ({}, min(budget, 6000)))       # products of unknowns: the legacy arithmetic solver first
+            # products of unknowns: the legacy arithmetic solver first (short), then the default one, then the legacy one with the full budget
+            order = (({'arith.solver': 2}, min(budget, 4000)), ({}, min(budget, 6000)), ({'arith.solver': 2}, budget))
         for cfg, tmo in order:
             s = z3.Solver()
             s.set('timeout', tmo)
@@ -210,6 +211,33 @@ class Ctx:
         if any(isinstance(h, bool) for h in hyps):
             self.results.append(Obl(f'{self.clause}.{name}', 'cover_fail', 'trivial', 0, kind='cover'))
             return False
+        # a numeric witness (real special functions, sampled constants) settles satisfiability without the solver
+        t = time.time()
+        try:
+            from . import numeval
+            import random as _random
+            zh = [h for h in hyps if isz(h)]
+            if not any(z3.is_quantifier(h) for h in zh) and not _has_uf_app(zh):
+                consts = numeval.free_consts(zh)
+                rng = _random.Random(0)
+                for k in range(400):
+                    env = {}
+                    for n_, c_ in consts.items():
+                        if z3.is_int(c_):
+                            env[n_] = rng.randint(0, 12)
+                        elif z3.is_bool(c_):
+                            env[n_] = rng.random() < 0.5
+                        else:
+                            env[n_] = rng.choice([rng.uniform(0.05, 3), rng.uniform(-3, 3), rng.uniform(0.5, 40)])
+                    try:
+                        if all(numeval.evaluate(h, env, 0, {}) is True for h in zh):
+                            dt = time.time() - t
+                            self.results.append(Obl(f'{self.clause}.{name}', 'cover_ok', 'numeric witness', dt, {'witness': {k_: round(v_, 6) if isinstance(v_, float) else v_ for k_, v_ in list(env.items())[:12]}}, kind='cover'))
+                            return True
+                    except (numeval.Bad, OverflowError, ZeroDivisionError, TypeError):
+                        continue
+        except z3.Z3Exception:
+            pass
         s = z3.Solver()
         s.set('timeout', Z3_TIMEOUT_MS)
         s.add(*hyps)
@@ -459,6 +487,21 @@ class Ctx:
         self.notes.append(text)
 
 
+def _has_uf_app(ts):
+    """an application of a function that numeric evaluation would have to invent (array element functions, reductions); special functions are fine"""
+    from .numeval import SPECIAL
+    seen, st = set(), list(ts)
+    while st:
+        x = st.pop()
+        if x.get_id() in seen:
+            continue
+        seen.add(x.get_id())
+        if z3.is_app(x) and x.num_args() > 0 and x.decl().kind() == z3.Z3_OP_UNINTERPRETED and x.decl().name() not in SPECIAL:
+            return True
+        st.extend(x.children())
+    return False
+
+
 def _nonlinear(ts):
     seen, st = set(), [t for t in ts if isz(t)]
     while st:
@@ -467,8 +510,8 @@ def _nonlinear(ts):
             continue
         seen.add(x.get_id())
         if z3.is_app(x) and x.decl().kind() == z3.Z3_OP_MUL:
-            if sum(1 for c in x.children() if not (z3.is_int_value(c) or z3.is_rational_value(c))) >= 2:
-                return True
+            if z3.is_real(x) and sum(1 for c in x.children() if not (z3.is_int_value(c) or z3.is_rational_value(c))) >= 2:
+                return True            # products of real unknowns (integer products such as n*sps are handled well by the default solver)
         if z3.is_quantifier(x):
             st.append(x.body())
         else:
